@@ -1,6 +1,6 @@
 """Helpers shared by rule modules."""
 import ast
-from .index import walk_no_nested, dotted, src, dump
+from .index import walk_no_nested, dotted, src, dump, names_in
 from .cfg import CFG
 
 
@@ -461,6 +461,17 @@ def final_assignments(stmts, atoms, names, upto=None, max_paths=5000):
     return [(r['kind'], r['env']) for r in explore(stmts, atoms, names=names, upto=upto, max_paths=max_paths)]
 
 
+def _subst_names(e, sub):
+    import copy
+
+    class T(ast.NodeTransformer):
+        def visit_Name(self, n):
+            if n.id in sub and isinstance(n.ctx, ast.Load):
+                return copy.deepcopy(sub[n.id])
+            return n
+    return T().visit(copy.deepcopy(e))
+
+
 def outcomes_by_case(stmts, cases, atom, facts=None, on_node=None):
     """Abstract interpretation of a small decision procedure: for every abstract case (dict of symbol -> int/bool) the feasible paths of
     `stmts` are followed with each test evaluated on the case (comparison predicates over the named atoms, via domains.eval_pred) or,
@@ -474,11 +485,23 @@ def outcomes_by_case(stmts, cases, atom, facts=None, on_node=None):
     base = mk_atoms(facts or {})
     for case in cases:
         def ev(e, cenv):
-            v = eval3(e, cenv, base)
+            v = eval3(e, {k: v_ for k, v_ in cenv.items() if not isinstance(v_, ast.AST)}, base)
             if v is not UNK:
                 return v
+            # locals assigned a non-constant expression on this path are replaced by that expression (so that a verdict computed into a
+            # temporary and tested later is followed)
+            sub = {k: v_ for k, v_ in cenv.items() if isinstance(v_, ast.AST)}
+            e2 = e
+            for _ in range(4):
+                if not sub or not (names_in(e2) & set(sub)):
+                    break
+                e2 = _subst_names(e2, sub)
+            if e2 is not e:
+                v = eval3(e2, {k: v_ for k, v_ in cenv.items() if not isinstance(v_, ast.AST)}, base)
+                if v is not UNK:
+                    return v
             try:
-                return eval_pred(e, case, atom)
+                return eval_pred(e2, case, atom)
             except Exception:
                 return UNK
 
@@ -497,7 +520,7 @@ def outcomes_by_case(stmts, cases, atom, facts=None, on_node=None):
                 for t in node.ast.targets:
                     if isinstance(t, ast.Name):
                         val = node.ast.value
-                        cenv[t.id] = val.value if isinstance(val, ast.Constant) else UNK
+                        cenv[t.id] = val.value if isinstance(val, ast.Constant) else (val if t.id not in names_in(val) else UNK)
                     else:
                         for n in ast.walk(t):
                             if isinstance(n, ast.Name) and isinstance(n.ctx, ast.Store):
